@@ -1,6 +1,6 @@
 package main
 
-// Virtual clock and context for the C09 harness.
+// Virtual clock for the C09 harness.
 //
 // vclock implements k8s.io/utils/clock.WithTicker (only NewTimer/Now are used by the rate
 // limiter). Every call the limiter makes on the clock or on one of its timers is appended to a
@@ -17,7 +17,6 @@ package main
 // expiry, the value stays in the 1-slot buffer and the caller drains it).
 
 import (
-	"context"
 	"sync"
 	"time"
 
@@ -243,101 +242,4 @@ func (c *vclock) armed() bool {
 	return false
 }
 
-// ---------------------------------------------------------------------------------------
-// vctx: a context.Context with an AfterFunc method. context.WithCancel(parent) then registers
-// the child through AfterFunc instead of starting a goroutine, and the child's own cancel()
-// (called by the limiter's run loop on its closeCh path, with no lock held and before its
-// wg.Done()) calls the stop function we hand out — a seam where the run loop can be held.
-
-type vctx struct {
-	mu      sync.Mutex
-	done    chan struct{}
-	err     error
-	funcs   map[int]func()
-	next    int
-	holdCh  chan struct{} // non-nil: stop() blocks until closed
-	holding bool
-}
-
-func newVCtx() *vctx { return &vctx{done: make(chan struct{}), funcs: map[int]func(){}} }
-
-func (v *vctx) Deadline() (time.Time, bool) { return time.Time{}, false }
-func (v *vctx) Done() <-chan struct{}       { return v.done }
-func (v *vctx) Err() error {
-	v.mu.Lock()
-	defer v.mu.Unlock()
-	return v.err
-}
-func (v *vctx) Value(any) any { return nil }
-
-func (v *vctx) AfterFunc(f func()) func() bool {
-	v.mu.Lock()
-	defer v.mu.Unlock()
-	if v.err != nil {
-		go f()
-		return func() bool { return false }
-	}
-	id := v.next
-	v.next++
-	v.funcs[id] = f
-	return func() bool {
-		v.mu.Lock()
-		_, ok := v.funcs[id]
-		delete(v.funcs, id)
-		hold := v.holdCh
-		if hold != nil {
-			v.holding = true
-		}
-		v.mu.Unlock()
-		if hold != nil {
-			<-hold
-			v.mu.Lock()
-			v.holding = false
-			v.mu.Unlock()
-		}
-		return ok
-	}
-}
-
-// cancel cancels the context; registered functions run synchronously here (they only cancel
-// the child context), so propagation is complete when cancel returns.
-func (v *vctx) cancel() {
-	v.mu.Lock()
-	if v.err != nil {
-		v.mu.Unlock()
-		return
-	}
-	v.err = context.Canceled
-	close(v.done)
-	fs := v.funcs
-	v.funcs = map[int]func(){}
-	v.mu.Unlock()
-	for _, f := range fs {
-		f()
-	}
-}
-
-func (v *vctx) armHold() {
-	v.mu.Lock()
-	v.holdCh = make(chan struct{})
-	v.mu.Unlock()
-}
-
-func (v *vctx) isHolding() bool {
-	v.mu.Lock()
-	defer v.mu.Unlock()
-	return v.holding
-}
-
-func (v *vctx) releaseHold() {
-	v.mu.Lock()
-	ch := v.holdCh
-	v.holdCh = nil
-	v.mu.Unlock()
-	if ch != nil {
-		close(ch)
-	}
-}
-
-var _ context.Context = (*vctx)(nil)
 var _ clock.WithTicker = (*vclock)(nil)
